@@ -8,9 +8,9 @@ The unqualified C++ name is the last component of filt.
 R = {}
 
 
-def F(cname, filt, mangled=None, cls=None, selft=None, name=None):
+def F(cname, filt, mangled=None, cls=None, selft=None, name=None, targs=None, tdefault=False):
     R[cname] = dict(filt=filt, mangled=mangled, cls=cls, selft=selft,
-                    name=name or filt.split('::')[-1])
+                    name=name or filt.split('::')[-1], targs=targs, tdefault=tdefault)
 
 
 SV = 'St17basic_string_viewIcSt11char_traitsIcEE'
@@ -41,8 +41,8 @@ F('percent_decode', 'ada::unicode::percent_decode')
 F('form_urlencoded_decode', 'ada::unicode::form_urlencoded_decode')
 F('percent_encode', 'ada::unicode::percent_encode', mangled=r'_ZN3ada7unicode14percent_encodeB5cxx11E%sPKh' % SV)
 F('percent_encode_idx', 'ada::unicode::percent_encode', mangled=r'_ZN3ada7unicode14percent_encodeB5cxx11E%sPKhm' % SV)
-F('percent_encode_append', 'ada::unicode::percent_encode', mangled=r'_ZN3ada7unicode14percent_encodeILb1EEEb.*')
-F('percent_encode_overwrite', 'ada::unicode::percent_encode', mangled=r'_ZN3ada7unicode14percent_encodeILb0EEEb.*')
+F('percent_encode_append', 'ada::unicode::percent_encode', mangled=r'_ZN3ada7unicode14percent_encodeILb1EEEb.*', targs='true')
+F('percent_encode_overwrite', 'ada::unicode::percent_encode', mangled=r'_ZN3ada7unicode14percent_encodeILb0EEEb.*', targs='false')
 F('percent_encode_index', 'ada::unicode::percent_encode_index')
 F('unicode_to_ascii', 'ada::unicode::to_ascii')
 
@@ -127,9 +127,11 @@ for _m in ['add_authority_slashes_if_needed', 'append_base_password', 'append_ba
 F('agg_update_base_search', A + 'update_base_search', cls='agg', mangled=r'_ZN3ada14url_aggregator18update_base_searchESt17basic_string_viewIcSt11char_traitsIcEE')
 F('agg_update_base_search_set', A + 'update_base_search', cls='agg', mangled=r'_ZN3ada14url_aggregator18update_base_searchESt17basic_string_viewIcSt11char_traitsIcEEPKh')
 F('agg_parse_port', A + 'parse_port', cls='agg', mangled=r'_ZN3ada14url_aggregator10parse_portESt17basic_string_viewIcSt11char_traitsIcEEb')
-F('agg_parse_scheme_with_colon_0', A + 'parse_scheme_with_colon', cls='agg', mangled=r'_ZN3ada14url_aggregator23parse_scheme_with_colonILb0EEE.*')
-F('agg_parse_scheme_with_colon_1', A + 'parse_scheme_with_colon', cls='agg', mangled=r'_ZN3ada14url_aggregator23parse_scheme_with_colonILb1EEE.*')
-F('agg_set_host_or_hostname_0', A + 'set_host_or_hostname', cls='agg', mangled=r'_ZN3ada14url_aggregator20set_host_or_hostnameILb0EEE.*')
-F('agg_set_host_or_hostname_1', A + 'set_host_or_hostname', cls='agg', mangled=r'_ZN3ada14url_aggregator20set_host_or_hostnameILb1EEE.*')
+F('agg_parse_scheme_with_colon_0', A + 'parse_scheme_with_colon', cls='agg', mangled=r'_ZN3ada14url_aggregator23parse_scheme_with_colonILb0EEE.*', targs='false', tdefault=True)
+F('agg_parse_scheme_with_colon_1', A + 'parse_scheme_with_colon', cls='agg', mangled=r'_ZN3ada14url_aggregator23parse_scheme_with_colonILb1EEE.*', targs='true')
+F('agg_set_host_or_hostname_0', A + 'set_host_or_hostname', cls='agg', mangled=r'_ZN3ada14url_aggregator20set_host_or_hostnameILb0EEE.*', targs='false')
+F('agg_set_host_or_hostname_1', A + 'set_host_or_hostname', cls='agg', mangled=r'_ZN3ada14url_aggregator20set_host_or_hostnameILb1EEE.*', targs='true')
 F('apply_shifted_non_scheme_offsets', 'apply_shifted_non_scheme_offsets')
 F('strip_trailing_spaces_from_opaque_path_agg', 'ada::helpers::strip_trailing_spaces_from_opaque_path', mangled=r'.*strip_trailing_spaces_from_opaque_pathINS_14url_aggregatorEE.*')
+F('agg_parse_port1', A + 'parse_port', cls='agg', mangled=r'_ZN3ada14url_aggregator10parse_portESt17basic_string_viewIcSt11char_traitsIcEE')
+F('idna_to_ascii', 'ada::idna::to_ascii')
